@@ -206,7 +206,7 @@ func validity(e *entry, d decoder, recv any, tripwire bool) (kind, msg string) {
 var allocSeen = map[[32]uintptr][2]int64{}
 
 func bigAllocSite() string {
-	for attempt := 0; attempt < 4; attempt++ {
+	for attempt := 0; attempt < 12; attempt++ {
 		runtime.GC() // the heap profile lags allocation by up to two completed collection cycles
 		runtime.GC()
 		runtime.GC()
